@@ -9,6 +9,7 @@ import (
 	"google.golang.org/grpc/status"
 
 	"github.com/smart-core-os/sc-api/go/traits"
+	"github.com/smart-core-os/sc-golang/pkg/masks"
 )
 
 type ModelServer struct {
@@ -64,6 +65,11 @@ func (m *ModelServer) ListWasteRecords(ctx context.Context, req *traits.ListWast
 		if npt > 0 {
 			resp.NextPageToken = strconv.Itoa(startIndex - int(count))
 		}
+	}
+	// apply the read mask to the returned page (on copies: the records are the stored messages)
+	mask := masks.NewResponseFilter(masks.WithFieldMask(req.ReadMask))
+	for i, item := range resp.WasteRecords {
+		resp.WasteRecords[i] = mask.FilterClone(item).(*traits.WasteRecord)
 	}
 	resp.TotalSize = int32(m.model.GetWasteRecordCount())
 	return resp, nil
